@@ -1183,7 +1183,7 @@ class _Frame:
                 vals = [self._int(a) for a in args]
             except AnalysisError:
                 # floating-point arange (start, stop, step) with exact rational arguments: start + k*step for k < ceil((stop - start) / step)
-                q = [sp.nsimplify(sp.sympify(a)) for a in args]
+                q = [sp.sympify(a) for a in args]
                 if len(q) != 3 or not all(t.is_number for t in q) or q[2] == 0:
                     raise
                 cnt = max(0, int(sp.ceiling((q[1] - q[0]) / q[2])))
@@ -1333,7 +1333,8 @@ class _Frame:
             res = [self._exact_eigh(A[k], e) for k in range(A.shape[0])]
             return np.stack([r[0] for r in res]), np.stack([r[1] for r in res])
         n = A.shape[0]
-        M = [[sp.nsimplify(sp.sympify(A[i, j])) for j in range(n)] for i in range(n)]
+        exact = lambda t: sp.Rational(str(t)) if sp.sympify(t).is_Float else sp.sympify(t)
+        M = [[exact(A[i, j]) for j in range(n)] for i in range(n)]
         if any(not x.is_number for row in M for x in row):
             raise AnalysisError(f"npsym: eigh of a symbolic matrix in `{norm(e)[:50] if e is not None else ''}`")
         # torch.linalg.eigh(UPLO=...) reads one triangle only; the repository passes symmetric matrices, use the upper triangle
@@ -1347,7 +1348,21 @@ class _Frame:
             v = [sp.Integer(0)] * n
             v[i] = sp.Integer(1)
             pairs.append((M[i][i], v))
+        known_hit = None
         if rest:
+            # a rule that designed the matrix from its eigendecomposition may register it (C, eigenvalues, orthogonal Q with C = Q diag Q^T): exact and cheap
+            for C_, lam_, Q_ in getattr(self.I, "eigh_known", ()):
+                if C_.shape == (len(rest), len(rest)) and all(M[i][j] == C_[a, b] for a, i in enumerate(rest) for b, j in enumerate(rest)):
+                    known_hit = (lam_, Q_)
+                    break
+        if rest and known_hit is not None:
+            lam_, Q_ = known_hit
+            for k_ in range(len(rest)):
+                full = [sp.Integer(0)] * n
+                for a, i in enumerate(rest):
+                    full[i] = Q_[a, k_]
+                pairs.append((sp.sympify(lam_[k_]), full))
+        elif rest:
             sub = sp.Matrix([[M[i][j] for j in rest] for i in rest])
             for lam, mult, vs in sub.eigenvects():
                 if not lam.is_real:
@@ -1357,8 +1372,8 @@ class _Frame:
                 for v in vs:
                     full = [sp.Integer(0)] * n
                     for k, i in enumerate(rest):
-                        full[i] = sp.nsimplify(v[k])
-                    pairs.append((sp.nsimplify(lam), full))
+                        full[i] = sp.sympify(v[k])
+                    pairs.append((sp.sympify(lam), full))
         if len(pairs) != n:
             raise AnalysisError("npsym: eigh could not find a complete exact eigenbasis")
         pairs.sort(key=lambda t: (float(t[0]),))
@@ -1649,7 +1664,7 @@ class _Frame:
         if name == "unique" and not args and not kwargs:
             if x.dtype == object and not all(sp.sympify(t).is_number for t in x.flat):
                 raise AnalysisError("npsym: .unique() of symbolic data")
-            vals = sorted({(int(t) if x.dtype.kind in "iub" else sp.nsimplify(t)) for t in x.flat})
+            vals = sorted({(int(t) if x.dtype.kind in "iub" else sp.sympify(t)) for t in x.flat})
             return np.array(vals, dtype=x.dtype if x.dtype.kind in "iu" else object)
         raise AnalysisError(f"npsym: tensor method `.{name}` in `{norm(e)[:60]}`")
 
